@@ -555,6 +555,10 @@ def parse_calls(s, with_count=False):
 
 
 def oracle_cluster(line, out):
+    if out.startswith("MUTATED-INPUT"):
+        return "clustering rewrites the caller's call rows (Count / interval / ids of the input calls change)"
+    if out.startswith("NOT-REPEATABLE"):
+        return "clustering the same calls a second time gives another result: " + out[:200]
     op, kv = kv_of(line)
     if out.startswith("ERR"):
         return f"exception {out}"
@@ -648,6 +652,8 @@ def parse_comparison(out):
 
 
 def oracle_compare(line, out):
+    if out.startswith("STATEFUL-COMPARER"):
+        return "a comparer that has compared a prefix of the list before classifies the grown list differently from a fresh comparer: " + out[:300]
     op, kv = kv_of(line)
     if out.startswith("ERR"):
         return f"exception {out}"
@@ -674,6 +680,8 @@ def oracle_compare(line, out):
 
 
 def oracle_compare_swap(line, out, line2, out2):
+    if out.startswith(("STATEFUL", "ERR")) or out2.startswith(("STATEFUL", "ERR")):
+        return None          # already reported by oracle_compare on the line itself
     c1, r1 = parse_comparison(out)
     c2, r2 = parse_comparison(out2)
     if (c1["first"], c1["second"], c1["ov"], c1["non"]) != (c2["second"], c2["first"], c2["ov"], c2["non"]):
